@@ -335,6 +335,12 @@ def regenerate_all(outdir):
             res["errors"][name] = "unsupported: " + str(e)
         except Exception as e:
             res["errors"][name] = type(e).__name__ + ": " + str(e)
+        if name in res["errors"] and name.startswith("Py"):
+            # leave no stale definition behind: a file that does not compile, so that the refinement theorems about it
+            # are reported as not discharged until the source can be translated again
+            stub = "/-! regeneration from /repo FAILED: %s -/\n#check (regeneration_failed_see_header : Unit)\n" % res["errors"][name].replace("-/", "- /")
+            if _write_if_changed(os.path.join(outdir, name + ".lean"), stub):
+                res["changed"].append(name)
     return res
 
 
